@@ -218,6 +218,13 @@ SIG = {
                            [('hashlib_sha256', 'Bytes → Bytes'), ('OPS', 'List (String × Bytes)'), ('self_key_bytes', 'Bytes'),
                             ('pubkey_bytes', 'Bytes'), ('tx_digest', 'Bytes'), ('sighash', 'Int'), ('scripts', 'Py.PyScripts'),
                             ('tweak', 'Bool')], 'Bytes'),
+    # PrivateKey construction: which argument wins, the 32-byte check; python-ecdsa's constructors are parameters; `none` = a random key
+    # was generated (SigningKey.generate)
+    'privkey_from_bytes': ('keys.py', 'PrivateKey._from_bytes', [('signingkey_from_string', 'Bytes → Except PyErr Int'), ('b', 'Bytes')], 'Int'),
+    'privkey_init': ('keys.py', 'PrivateKey.__init__',
+                     [('hashlib_sha256', 'Bytes → Bytes'), ('b58decode', 'String → Except PyErr Bytes'),
+                      ('signingkey_from_string', 'Bytes → Except PyErr Int'), ('signingkey_from_secret_exponent', 'Int → Except PyErr Int'),
+                      ('wif_prefix', 'Bytes'), ('wif', 'Option String'), ('secret_exponent', 'Option Int'), ('b', 'Option Bytes')], 'Option Int'),
     # signed messages: PublicKey(message=, signature=) — the recovery branch of the constructor (python-ecdsa's
     # from_public_key_recovery_with_digest a parameter; the message as its UTF-8 bytes) — and PublicKey.verify (base64 and verify_digest parameters)
     'pubkey_recover': ('keys.py', 'PublicKey.__init__',
@@ -815,6 +822,26 @@ class Tr:
         return None
 
     def e_wif(s, n):
+        if s.name == 'privkey_init':
+            opts = ('wif', 'secret_exponent', 'b')
+            if (isinstance(n, ast.Compare) and len(n.ops) == 1 and isinstance(n.ops[0], (ast.Is, ast.IsNot)) and isinstance(n.left, ast.Name)
+                    and n.left.id in opts and isinstance(n.comparators[0], ast.Constant) and n.comparators[0].value is None):
+                return f'(Option.is{"None" if isinstance(n.ops[0], ast.Is) else "Some"} {n.left.id})'
+            if isinstance(n, ast.Name) and n.id in opts: return s.eff(f'Py.unwrap {n.id}')       # a use of the value: TypeError on None
+            if isinstance(n, ast.Call) and isinstance(n.func, ast.Name) and n.func.id in ('_from_wif', '_from_bytes') and len(n.args) == 1 \
+                    and not n.keywords:
+                if n.func.id == '_from_wif':
+                    return s.eff(f'from_wif hashlib_sha256 b58decode signingkey_from_string wif_prefix {s.e(n.args[0])}')
+                return s.eff(f'privkey_from_bytes signingkey_from_string {s.e(n.args[0])}')
+            if isinstance(n, ast.Call) and isinstance(n.func, ast.Attribute) and isinstance(n.func.value, ast.Name):
+                f = n.func
+                if f.value.id == 'self' and f.attr == '_from_wif' and len(n.args) == 1 and not n.keywords:
+                    return s.eff(f'from_wif hashlib_sha256 b58decode signingkey_from_string wif_prefix {s.e(n.args[0])}')
+                if f.value.id == 'self' and f.attr == '_from_bytes' and len(n.args) == 1 and not n.keywords:
+                    return s.eff(f'privkey_from_bytes signingkey_from_string {s.e(n.args[0])}')
+                if (f.value.id == 'SigningKey' and f.attr == 'from_secret_exponent' and len(n.args) == 1
+                        and {k.arg for k in n.keywords} <= {'curve'}):
+                    return s.eff(f'signingkey_from_secret_exponent {s.e(n.args[0])}')
         if (isinstance(n, ast.Subscript) and isinstance(n.value, ast.Name) and n.value.id in ('NETWORK_P2PKH_PREFIXES', 'NETWORK_P2SH_PREFIXES')
                 and isinstance(n.slice, ast.Call) and getattr(n.slice.func, 'id', '') == 'get_network' and not n.slice.args):
             return 'p2pkh_prefix' if 'P2PKH' in n.value.id else 'p2sh_prefix'
@@ -949,7 +976,7 @@ class Tr:
         if s.name in WRAPFUNS:
             r = s.e_wrap(n)
             if r is not None: return r
-        if s.name in ('from_wif', 'to_wif', 'is_address_valid', 'address_to_hash160', 'address_to_string'):
+        if s.name in ('from_wif', 'to_wif', 'is_address_valid', 'address_to_hash160', 'address_to_string', 'privkey_from_bytes', 'privkey_init'):
             r = s.e_wif(n)
             if r is not None: return r
         if s.name == 'sign_input':
@@ -1532,6 +1559,28 @@ class Tr:
         r = [ind + p for p in s.pre]; s.pre = []; return r
 
     def stmt(s, st, ind):
+        if s.name in ('privkey_init', 'privkey_from_bytes'):
+            def last_in_branch_(stmts):
+                if not stmts: return False
+                l = stmts[-1]
+                if l is st: return True
+                if isinstance(l, ast.If): return last_in_branch_(l.body) or last_in_branch_(l.orelse)
+                return False
+            is_store = (isinstance(st, ast.Assign) and len(st.targets) == 1 and isinstance(st.targets[0], ast.Attribute)
+                        and isinstance(st.targets[0].value, ast.Name) and st.targets[0].value.id == 'self' and st.targets[0].attr == 'key')
+            is_setter = (isinstance(st, ast.Expr) and isinstance(st.value, ast.Call) and (
+                (isinstance(st.value.func, ast.Attribute) and getattr(st.value.func.value, 'id', '') == 'self'
+                 and st.value.func.attr in ('_from_wif', '_from_bytes'))
+                or (isinstance(st.value.func, ast.Name) and st.value.func.id in ('_from_wif', '_from_bytes'))))   # (self.… inside __init__ is rewritten to a plain name)
+            if is_store or is_setter:
+                # the constructor's effect is the key it installs (nothing follows on any path — checked)
+                if not last_in_branch_(s.fnode.body): s.fail(st, 'the key is installed before the end of the constructor')
+                wrap = (lambda v: f'(some {v})') if s.name == 'privkey_init' else (lambda v: v)
+                if (is_store and isinstance(st.value, ast.Call) and isinstance(st.value.func, ast.Attribute) and st.value.func.attr == 'generate'
+                        and getattr(st.value.func.value, 'id', '') == 'SigningKey' and not st.value.args and s.name == 'privkey_init'):
+                    return s.flush(ind) + [f'{ind}return none']          # a fresh random key
+                v = s.e(st.value)
+                return s.flush(ind) + [f'{ind}return {wrap(v)}']
         if s.name == 'from_wif' and isinstance(st, ast.Assign) and len(st.targets) == 1:
             tg = st.targets[0]
             if isinstance(tg, ast.Attribute) and isinstance(tg.value, ast.Name) and tg.value.id == 'self' and tg.attr == 'key':
@@ -2225,7 +2274,7 @@ class Tr:
         body = pre + s.block(node.body, '  ')
         last = node.body[-1]
         if not isinstance(last, (ast.Return, ast.Raise)):
-            body.append('  throw PyErr.fellThrough' if not ret.startswith('Option') and ret != 'Unit'
+            body.append('  throw PyErr.fellThrough' if (not ret.startswith('Option') and ret != 'Unit') or s.name == 'privkey_init'
                         else ('  return none' if ret != 'Unit' else '  return ()'))
         if s.name in TREEFUNS and TREEFUNS[s.name][0] is not None:
             # a recursive function: `fuel` bounds the recursion depth (exhausting it raises, like a bounded `while`)
